@@ -15,8 +15,10 @@ GUARD = "M17CXX_VERIF"
 NCPU = os.cpu_count() or 4
 
 SAN_FLAGS = ["-std=c++20", "-O1", "-g", "-fsanitize=address,undefined", "-fno-sanitize-recover=all",
-             "-D_GLIBCXX_ASSERTIONS", "-DNDEBUG", f"-D{GUARD}", "-Wno-deprecated-declarations"]
-FAST_FLAGS = ["-std=c++20", "-O2", "-DNDEBUG", f"-D{GUARD}", "-Wno-deprecated-declarations"]
+             "-D_GLIBCXX_ASSERTIONS", "-DNDEBUG", f"-D{GUARD}", "-Wno-deprecated-declarations", "-fno-access-control"]
+# -fno-access-control: the drivers read (and a few set) data members of the repository's classes; whether the repository declares them public or
+# private is not behaviour, and a refactoring that makes them private must not break the harness (harmless refactoring C06-h2 did)
+FAST_FLAGS = ["-std=c++20", "-O2", "-DNDEBUG", f"-D{GUARD}", "-Wno-deprecated-declarations", "-fno-access-control"]
 TRUSTED_AXIOMS = {"propext", "Classical.choice", "Quot.sound"}
 IDLE_TIMEOUT = int(os.environ.get("VERIF_IDLE_TIMEOUT", "600"))      # seconds a driver may take to answer ONE request
 FORBIDDEN = re.compile(r"\bsorry\b|\badmit\b|^\s*axiom\s|native_decide|bv_decide|implemented_by|\bunsafe\s|maxHeartbeats\s+0\b")
@@ -126,7 +128,7 @@ def build_cpp(name, sources, flags=None, libs=None, extra_inc=None, deps=None):
 
 def regen():
     """(T) translate the current headers' constants into lean/M17/Gen"""
-    exe = build_cpp("dump_tables", ["dump_tables.cpp"], flags=["-std=c++20", "-O1", "-DNDEBUG", f"-D{GUARD}"], deps=["shim/blaze/Math.h"])
+    exe = build_cpp("dump_tables", ["dump_tables.cpp"], flags=["-std=c++20", "-O1", "-DNDEBUG", f"-D{GUARD}", "-fno-access-control"], deps=["shim/blaze/Math.h"])
     gen = os.path.join(LEAN, "M17", "Gen")
     with Lock("lake"):
         rc, out = sh([exe, gen], timeout=120)
